@@ -174,6 +174,7 @@ def write_evidence(mod, tier, seed, results, violations, wall, reg_run, partial=
     evaluations = sum(r["evaluations"] for r in results)
     sub_evals, sub_nt, classes, known_hits = Counter(), Counter(), Counter(), Counter()
     nontrivial = set()
+    block_nt = 0
     samples = []
     exhaustive = {}
     notes = {}
@@ -182,6 +183,7 @@ def write_evidence(mod, tier, seed, results, violations, wall, reg_run, partial=
         classes.update(r["classes"])
         known_hits.update(r["known_hits"])
         nontrivial.update(r["nontrivial"])
+        block_nt += r.get("block_nontrivial", 0)
         for s in r["samples"]:
             if sum(1 for x in samples if x["subcheck"] == s["subcheck"]) < 2:
                 samples.append(s)
@@ -197,7 +199,7 @@ def write_evidence(mod, tier, seed, results, violations, wall, reg_run, partial=
         notes.update(r["notes"])
     merged = {
         "evaluations": evaluations,
-        "distinct_nontrivial": len(nontrivial),
+        "distinct_nontrivial": len(nontrivial) + block_nt,
         "known_hits": dict(known_hits),
     }
     ev = {
@@ -207,7 +209,7 @@ def write_evidence(mod, tier, seed, results, violations, wall, reg_run, partial=
         "level": mod.LEVEL,
         "coverage": {
             "evaluations": evaluations + reg_run,
-            "distinct_nontrivial": len(nontrivial),
+            "distinct_nontrivial": len(nontrivial) + block_nt,
             "rule": mod.RULE,
             "samples": samples[:12] if samples else ([{"note": "run ended in the regression tier"}] if partial else []),
             "subchecks": dict(sub_evals),
